@@ -23,9 +23,13 @@ MODELS = {
     "cgmy02": (ModelType.CGMY, dict(c=0.5, g=15.0, m=20.0, y=0.2)),
     "cgmy12": (ModelType.CGMY, dict(c=0.05, g=10.0, m=8.0, y=1.2)),
     "vg": (ModelType.VG, dict(sigma=0.1, nu=0.06, theta=0.1)),
+    # strongly one-sided tails: model-truncated grids get many more states on one side of the origin than on the other
+    "hem_rightskew": (ModelType.HEM, dict(sigma=0.10, p=0.9, eta1=8.0, eta2=40.0, intensity=5.0)),
+    "hem_leftskew": (ModelType.HEM, dict(sigma=0.10, p=0.1, eta1=40.0, eta2=8.0, intensity=5.0)),
 }
 DIRECT_MODELS = ["hem", "hem_lowint", "merton", "merton_lowint"]  # models with an exact jump sampler
 CHAIN_MODELS = ["hem", "hem_lowint", "hem_nosigma", "merton", "cgmy02", "cgmy12", "vg"]
+SKEWED_MODELS = ["hem_rightskew", "hem_leftskew"]
 
 METHODS = {
     "bst": SamplingMethod.BINARYSEARCHTREE,
@@ -64,6 +68,8 @@ def build_process(spec):
     if kind == "levy":
         return LevyProcess(model)
     grid = build_grid(spec["grid"], model)
+    for _ in range(int(spec.get("refinements", 0))):
+        grid.refine()  # what every level transition does before the next level's chain is built on the grid
     method = METHODS[spec["method"]]
     if kind == "chain":
         return MarkovChainProcess(model, method, grid)
